@@ -430,6 +430,9 @@ func lazyInitFamily(preempt int, budget time.Duration) mc.Family {
 				}
 			}
 			names.VerifReset()
+			if !names.VerifResetAvailable {
+				return mc.Pass("shim_unavailable:tables-cannot-be-reset", false)
+			}
 			plan := sc[item]
 			results := make([][]string, len(plan))
 			var bodies []func()
